@@ -445,20 +445,20 @@ func (c *Ctx) multiTreeIds() {
 	// sends of tree.Trees literals
 	type sendSite struct {
 		st    *ast.SendStmt
-		lit   *ast.CompositeLit
-		owner *ast.FuncLit // innermost function literal
+		fields map[string]ast.Expr
+		owner  *ast.FuncLit // innermost function literal
 	}
 	var sends []sendSite
 	walkStack(fl, func(n ast.Node, stack []ast.Node) bool {
 		if s, ok := n.(*ast.SendStmt); ok {
-			if lit, ok := unparen(s.Value).(*ast.CompositeLit); ok {
+			if flds := c.recordFields(info, s.Value, 3); flds != nil {
 				owner := fl
 				for _, a := range stack {
 					if l, ok := a.(*ast.FuncLit); ok {
 						owner = l
 					}
 				}
-				sends = append(sends, sendSite{s, lit, owner})
+				sends = append(sends, sendSite{s, flds, owner})
 			}
 		}
 		return true
@@ -469,7 +469,7 @@ func (c *Ctx) multiTreeIds() {
 	// the counter: the variable all Id fields name
 	var idObj types.Object
 	for i, s := range sends {
-		f := c.litFields(info, s.lit)
+		f := s.fields
 		key := fmt.Sprintf("utils.ReadMultiTrees/send#%d", i+1)
 		o := identObj(info, f["Id"])
 		if o == nil {
@@ -527,7 +527,7 @@ func (c *Ctx) multiTreeIds() {
 		return ok && s.Tok == token.INC && identObj(info, s.X) == idObj
 	}
 	for i, s := range sends {
-		f := c.litFields(info, s.lit)
+		f := s.fields
 		key := fmt.Sprintf("utils.ReadMultiTrees/send#%d", i+1)
 		if t, ok := f["Tree"]; !ok || isNilIdent(info, t) {
 			c.Trivial("PATH", key+"/error-record", s.st.Pos(), "error record: no tree delivered")
@@ -603,8 +603,8 @@ func (c *Ctx) multiTreeErrFlow() {
 		delivered := false
 		ast.Inspect(cb.Body, func(n ast.Node) bool {
 			if s, ok := n.(*ast.SendStmt); ok {
-				if lit, ok := unparen(s.Value).(*ast.CompositeLit); ok {
-					if e, ok := c.litFields(info, lit)["Err"]; ok && identObj(info, e) == errParam {
+				if flds := c.recordFields(info, s.Value, 3); flds != nil {
+					if e, ok := flds["Err"]; ok && identObj(info, e) == errParam {
 						if conds, okc := c.pathConds(info, cb.Body, s, false); okc && len(conds) == 0 {
 							delivered = true
 						}
